@@ -42,6 +42,10 @@ def run_batch(exe, mode, scns, wd, tag, env=None, timeout_s=20, args=None, wrapp
     model = {}
     if mode:
         rc2, mo, me = vlib.run_cmd([vlib.simcheck_exe(), mode, f], timeout=600)
+        if rc2 == -9:
+            # the model is a terminating function: a timeout is machine load, not a verdict — once more, patiently
+            vlib.log("[simcheck] timeout on %s, retrying with 3000 s" % os.path.basename(f))
+            rc2, mo, me = vlib.run_cmd([vlib.simcheck_exe(), mode, f], timeout=3000)
         model, _ = split_batch(mo)
         if rc2 != 0:
             vlib.log("[simcheck] rc=%d %s" % (rc2, me[-300:]))
